@@ -101,9 +101,9 @@ def wiring(case):
         px.stop()
 
 grid = list(itertools.product([None, 0, 3, 7], [None, 0, 4, 9]))
-if tier() != 'thorough':
-    grid = [g for i, g in enumerate(grid) if i % 2 == 0 or g == (3, 9)]
-results = run_parallel(grid, wiring, workers=6)
+# the whole grid in both tiers: a subsample by position dropped every (idle, udp=0) pair, the cases where one period is
+# disabled and the other is not
+results = run_parallel(grid, wiring, workers=8)
 evals = 0
 distinct = set()
 samples = []
